@@ -332,17 +332,29 @@ pub fn worker_main(family: &dyn Family, a: WorkerArgs) -> ! {
             .and_then(|v| v.parse().ok())
             .unwrap_or(family.horizon_ms()),
     );
-    // watchdog
+    // watchdog: a case "hangs" when the worker's main thread has burnt more than the horizon of CPU
+    // time on it (robust against a loaded machine), or when it has been stuck for 40 x the horizon of
+    // wall-clock time (a blocked thread burns no CPU)
+    fn main_thread_cpu() -> Duration {
+        // /proc/self/schedstat: "<ns on cpu> <ns waiting> <timeslices>" of the thread-group leader
+        std::fs::read_to_string("/proc/self/schedstat")
+            .ok()
+            .and_then(|t| t.split_whitespace().next().and_then(|v| v.parse::<u64>().ok()))
+            .map(Duration::from_nanos)
+            .unwrap_or_default()
+    }
     std::thread::spawn(move || {
         let mut last_seq = CUR_SEQ.load(Ordering::Relaxed);
         let mut since = Instant::now();
+        let mut since_cpu = main_thread_cpu();
         loop {
             std::thread::sleep(Duration::from_millis(50));
             let s = CUR_SEQ.load(Ordering::Relaxed);
             if s != last_seq || PAUSED.load(Ordering::Relaxed) {
                 last_seq = s;
                 since = Instant::now();
-            } else if since.elapsed() > horizon {
+                since_cpu = main_thread_cpu();
+            } else if main_thread_cpu().saturating_sub(since_cpu) > horizon || since.elapsed() > horizon * 40 {
                 let idx = CUR_IDX.load(Ordering::Relaxed);
                 let out = std::io::stdout();
                 let mut out = out.lock();
